@@ -143,3 +143,61 @@ Proof.
   exists i, size, t'. split; [exact Hd|]. split; [exact He|]. split; [apply HI', Hc|].
   apply eff_sound. rewrite stack_pre_exec. exact He.
 Qed.
+
+(* ---------- frame rule: certificates relative to a base ---------- *)
+From QV Require Import Monitor CertObs.
+
+(* the abstract effect of a stack instruction does not depend on what lies
+   below the cells it uses *)
+Lemma eff_frame i t t' r : eff i t = Some t' -> eff i (t ++ r) = Some (t' ++ r).
+Proof.
+  intro H. destruct i; try (cbn [eff] in H; discriminate).
+  all: cbn [eff] in H |- *; shape H; inversion H; subst; clear H; cbn [app];
+       repeat match goal with C : ?b = true |- context[if ?b then _ else _] => rewrite C end;
+       try reflexivity.
+Qed.
+
+Lemma eff_list_frame l : forall t t' r, eff_list l t = Some t' -> eff_list l (t ++ r) = Some (t' ++ r).
+Proof.
+  induction l as [|i l IH]; intros t t' r H; cbn in *.
+  - inversion H. reflexivity.
+  - destruct (eff i t) as [t1|] eqn:E; [|discriminate].
+    rewrite (eff_frame i t t1 r E). apply IH, H.
+Qed.
+
+Lemma tys_eqb_refl x : tys_eqb x x = true.
+Proof. induction x as [|a x IH]; cbn; [reflexivity|]. rewrite Z.eqb_refl. exact IH. Qed.
+
+Lemma cert_at_shift r c a :
+  cert_at (cert_shift r c) a = option_map (fun t => t ++ r) (cert_at c a).
+Proof.
+  induction c as [|[b t] c IH]; cbn; [reflexivity|].
+  destruct (a =? b); [reflexivity | exact IH].
+Qed.
+
+Lemma succ_ok_shift r c a t : succ_ok c a t = true -> succ_ok (cert_shift r c) a (t ++ r) = true.
+Proof.
+  unfold succ_ok. rewrite cert_at_shift. destruct (cert_at c a) as [t0|]; cbn; [|reflexivity].
+  intro H. apply tys_eqb_eq in H. subst. apply tys_eqb_refl.
+Qed.
+
+Lemma check_at_shift m r c a t :
+  check_at m c a t = true -> check_at m (cert_shift r c) a (t ++ r) = true.
+Proof.
+  unfold check_at. intro H. apply andb_true_iff in H as [Hr H]. rewrite Hr. cbn [andb].
+  destruct (decode (skipn (Z.to_nat a) (m_code m))) as [| |i size]; try discriminate.
+  destruct (eff i t) as [t'|] eqn:E; [|discriminate].
+  rewrite (eff_frame i t t' r E).
+  destruct i; try (apply succ_ok_shift; exact H).
+  (* IJz *)
+  apply andb_true_iff in H as [H1 H2]. rewrite (succ_ok_shift r c _ _ H1), (succ_ok_shift r c _ _ H2).
+  reflexivity.
+Qed.
+
+(* a certificate checked relative to a base is a certificate under every tail *)
+Theorem check_cert_frame m c r : check_cert m c = true -> check_cert m (cert_shift r c) = true.
+Proof.
+  unfold check_cert, cert_shift. rewrite !forallb_forall. intros H p Hp.
+  apply in_map_iff in Hp as [[a t] [<- Hin]]. cbn [fst snd].
+  apply check_at_shift. exact (H (a, t) Hin).
+Qed.
